@@ -13,7 +13,17 @@ SFC = ['PRSS', 'T02M', 'SHGT']
 LAY = ['TEMP', 'UWND', 'VWND']
 
 
-def gen(rng, small=None):
+def gen(rng, small=None, partial=False):
+    if partial:
+        # a variable that only the lower levels carry (vertical velocity in real files): three levels above the surface, the
+        # last variable of the list absent from the top one or two
+        c = gen(rng)
+        while len(c['lay']) < 2 or len(c['levels']) < 3 or c['nx'] >= 1000 or c['ny'] >= 1000:
+            c = gen(rng)
+        lay = c['lay']
+        c['layorder'] = [list(lay)] + [list(lay[:-1]) for _ in range(len(c['levels']) - 2)]
+        c['fields'] = {k: v for k, v in c['fields'].items() if k.split('|')[2] in _laykeys(c, int(k.split('|')[1]))}
+        return c
     nx, ny = rng.randint(20, 24), rng.randint(17, 19)      # the index record and the reader's LENH-sized read must fit into one record
     if small is not None:
         nx, ny = rng.choice([(small, 1200), (1090, small)])
@@ -127,6 +137,18 @@ def view(f, c):
     ref = datetime.strptime(tv.units, 'hours since %Y-%m-%d %H:%M:%S')
     times = [(ref + timedelta(hours=float(h))).strftime('%Y%m%d%H') for h in np.asarray(tv[:])]
     out = dict(keys=keys, z=[float(x) for x in np.asarray(f.variables['z'][:])], sfclvl=float(f.SFCVGLVL), times=times, fields={})
+    out['absent'] = {}
     for k in keys:
-        out['fields'][k] = np.asarray(f.variables[k][:], dtype='d').tolist()
+        a = f.variables[k][:]
+        out['fields'][k] = np.asarray(np.ma.filled(a, 0.), dtype='d').tolist()
+        m = np.ma.getmaskarray(a)
+        if m.ndim == 4:
+            # levels of a variable that are missing as a whole, and cells missing on levels that are not
+            out['absent'][k] = [[bool(m[ti, li].all()) for li in range(m.shape[1])] for ti in range(m.shape[0])]
+            if any(m[ti, li].any() and not m[ti, li].all() for ti in range(m.shape[0]) for li in range(m.shape[1])):
+                out['absent'][k] = 'partly missing level'
+        elif m.any():
+            out['absent'][k] = 'missing cells in a surface field'
+    from . import pfile
+    out['illformed'] = pfile.wellformed(f)
     return out
